@@ -9,6 +9,7 @@ import (
 	"runtime/debug"
 	"sort"
 	"strings"
+	"syscall"
 
 	"github.com/emersion/go-webdav/verifharness/fw"
 )
@@ -84,6 +85,11 @@ func run(c *fw.Ctx) {
 	} else {
 		c.Observe("race_detector", "active-workers", 1)
 	}
+	// A mask of 0 would hide a request that meddles with the process umask.
+	if readUmask() == 0 {
+		syscall.Umask(022)
+	}
+	c.Observe("process_umask", fmt.Sprintf("%04o", readUmask()), 1)
 	// schedules
 	reps := c.Pick(2, 12)
 	var cfgs []schedCfg
@@ -124,6 +130,8 @@ func run(c *fw.Ctx) {
 			runRawSchedule(c, cfg, i)
 		}
 	}
+	// calls while an upload is open
+	runCompanions(c)
 	// upload fault matrix (exhaustive)
 	for i, cs := range uploadMatrix(c.Thorough()) {
 		if !c.Mine(i) {
@@ -152,7 +160,12 @@ func init() {
 			var wit struct {
 				Case *uploadCase `json:"case"`
 			}
-			if json.Unmarshal(w, &wit) == nil && wit.Case != nil {
+			var cw struct {
+				Case *companionCase `json:"case"`
+			}
+			if json.Unmarshal(w, &cw) == nil && cw.Case != nil && cw.Case.Companion != "" {
+				execCompanion(c, *cw.Case, 0)
+			} else if json.Unmarshal(w, &wit) == nil && wit.Case != nil {
 				execUpload(c, *wit.Case)
 			} else {
 				fmt.Println("schedule witnesses are not replayable deterministically; witness:", string(w))
@@ -160,11 +173,13 @@ func init() {
 		},
 		Rule: "schedules: N in {2,4,16,64} goroutines x mixed operations on private subtrees through ONE handler and ONE client (webdav on disk, caldav and carddav on recording backends; in-process and over TCP), GOMAXPROCS in {1,2,4,16}, driver-side jitter, repeated; every result is compared with the private solo model of that worker and the final directory with the union of the workers' trees; the worker binary is built with -race and the race log is read back. " +
 			"fault matrix (exhaustive): scripted raw-TCP server {answers before reading, reads k bytes then answers / drops / resets, stalls until the caller cancels, reads all then answers} x status x {close, drain, hold} x size {0, 10 B, 1 MiB, 8 MiB} x write chunking x caller behaviour x caller-side cancellation point {never, at 0, half-way, after the last Write}; call/return events at the caller and at the inner HTTP client boundary stamped from one counter. " +
+			"calls while an upload is open (exhaustive): client built on {*http.Client, a wrapping type, HTTPClientWithBasicAuth, in-process double} x {Stat, ReadDir, Open, Mkdir, a second complete upload} x {right after Create, between two Writes} x {from the goroutine holding the writer, from another one} against the real handler on a directory; every call must return with its solo result, both uploads stored byte for byte. " +
 			"distinct_nontrivial = distinct interleaving signatures (global call/return order per run) + distinct fault-matrix cells.",
 		Assumptions: []string{
 			"the reference for Close is what the inner HTTPClient returned, not what the server sent (net/http may legitimately report a write error or the early response)",
 			"a deadlock is a stable blocked state of the library goroutines after the server script has ended (200 identical consecutive observations); the 120 s watchdog only ever yields inconclusive",
 			"transport keep-alive goroutines are not library goroutines; double Close is outside the statement",
+			"between Create and Close the client may be used for other calls, also by the goroutine that holds the writer: with a live handler behind it, a stable state in which no goroutine runs (200 identical consecutive observations) is a deadlock",
 			"a 2xx status line with its header block is 'the server has answered': the library has no use for the body of a 2xx answer to a PUT, so a body that never completes (short of its Content-Length, no last-chunk) on a connection the server keeps open must not keep Close from returning nil; for non-2xx answers, whose body the client reads for the error condition, no such cell exists",
 			"once the caller has cancelled the context the request is over whatever the server does: a Write or Close that stays blocked after that is a deadlock",
 			"the raw multi-user schedules compare every answer with the answer of an identical but separate handler instance serving one request at a time; the backend double may yield or sleep a few microseconds at the start of an operation (a slow backend)",
